@@ -4,16 +4,22 @@ use pallas::ledger::primitives::{
 };
 use std::collections::{btree_map::Entry, BTreeMap};
 
+/// The sum of two amounts of one asset class doesn't fit the ledger field that holds it.
+#[derive(Debug, Clone, Copy, PartialEq, Eq)]
+pub struct Overflow;
+
 fn fold_assets<T>(
     acc: &mut BTreeMap<pallas::codec::utils::Bytes, T>,
     item: BTreeMap<pallas::codec::utils::Bytes, T>,
-) where
+) -> Result<(), Overflow>
+where
     T: SafeAdd + Copy,
 {
     for (key, value) in item.into_iter() {
         match acc.entry(key) {
             Entry::Occupied(mut entry) => {
-                if let Some(new_val) = value.try_add(*entry.get()) {
+                // amounts that cancel out leave no entry; a sum that doesn't fit isn't one of those
+                if let Some(new_val) = value.try_add(*entry.get())? {
                     entry.insert(new_val);
                 } else {
                     entry.remove();
@@ -24,84 +30,99 @@ fn fold_assets<T>(
             }
         }
     }
+
+    Ok(())
 }
 
 pub fn fold_multiassets<T>(
     acc: &mut BTreeMap<Hash<28>, BTreeMap<pallas::codec::utils::Bytes, T>>,
     item: BTreeMap<Hash<28>, BTreeMap<pallas::codec::utils::Bytes, T>>,
-) where
+) -> Result<(), Overflow>
+where
     T: SafeAdd + Copy,
 {
     for (key, value) in item.into_iter() {
         let mut map = acc.remove(&key).unwrap_or_default();
-        fold_assets(&mut map, value);
+        fold_assets(&mut map, value)?;
 
         // amounts that cancel out are removed, which can leave a policy without assets
         if !map.is_empty() {
             acc.insert(key, map);
         }
     }
+
+    Ok(())
 }
 
 pub fn aggregate_assets<T>(
     items: impl IntoIterator<Item = conway::Multiasset<T>>,
-) -> Option<conway::Multiasset<T>>
+) -> Result<Option<conway::Multiasset<T>>, Overflow>
 where
     T: SafeAdd + Copy,
 {
     let mut total_assets = BTreeMap::new();
 
     for assets in items {
-        fold_multiassets(&mut total_assets, assets);
+        fold_multiassets(&mut total_assets, assets)?;
     }
 
     if total_assets.is_empty() {
-        None
+        Ok(None)
     } else {
-        Some(total_assets)
+        Ok(Some(total_assets))
     }
 }
 
-pub fn aggregate_values(items: impl IntoIterator<Item = Value>) -> Value {
-    let mut total_coin = 0;
+pub fn try_aggregate_values(items: impl IntoIterator<Item = Value>) -> Result<Value, Overflow> {
+    let mut total_coin: u64 = 0;
     let mut assets = vec![];
 
     for value in items {
         match value {
             Value::Coin(x) => {
-                total_coin += x;
+                total_coin = total_coin.checked_add(x).ok_or(Overflow)?;
             }
             Value::Multiasset(x, y) => {
-                total_coin += x;
+                total_coin = total_coin.checked_add(x).ok_or(Overflow)?;
                 assets.push(y);
             }
         }
     }
 
-    if let Some(total_assets) = aggregate_assets(assets) {
-        Value::Multiasset(total_coin, total_assets)
+    if let Some(total_assets) = aggregate_assets(assets)? {
+        Ok(Value::Multiasset(total_coin, total_assets))
     } else {
-        Value::Coin(total_coin)
+        Ok(Value::Coin(total_coin))
     }
 }
 
+/// Panics when a sum doesn't fit its field, see [`try_aggregate_values`].
+pub fn aggregate_values(items: impl IntoIterator<Item = Value>) -> Value {
+    try_aggregate_values(items).expect("sum of amounts fits the ledger field")
+}
+
 pub trait SafeAdd: Sized {
-    fn try_add(self, other: Self) -> Option<Self>;
+    /// `Ok(None)` when the amounts cancel out
+    fn try_add(self, other: Self) -> Result<Option<Self>, Overflow>;
 }
 
 impl SafeAdd for NonZeroInt {
-    fn try_add(self, other: Self) -> Option<Self> {
+    fn try_add(self, other: Self) -> Result<Option<Self>, Overflow> {
         let lhs: i64 = self.into();
         let rhs: i64 = other.into();
-        NonZeroInt::try_from(lhs.checked_add(rhs)?).ok()
+        let sum = lhs.checked_add(rhs).ok_or(Overflow)?;
+
+        Ok(NonZeroInt::try_from(sum).ok())
     }
 }
 
 impl SafeAdd for PositiveCoin {
-    fn try_add(self, other: Self) -> Option<Self> {
+    fn try_add(self, other: Self) -> Result<Option<Self>, Overflow> {
         let lhs: u64 = self.into();
         let rhs: u64 = other.into();
-        PositiveCoin::try_from(lhs.checked_add(rhs)?).ok()
+        let sum = lhs.checked_add(rhs).ok_or(Overflow)?;
+
+        Ok(PositiveCoin::try_from(sum).ok())
     }
 }
 
